@@ -901,6 +901,49 @@ impl Check for C05 {
             let b = if members.len() == 1 { members.pop().unwrap() } else { D::Union(members) };
             return serde_json::to_value(PairCase { env, a, b, iso: false }).unwrap();
         }
+        // one case in sixteen: a tuple with a rest over a two-kind element type against a union of two to four tuples *with
+        // rests* whose fixed positions each narrow to one kind or not (prefix lengths 1..3): whether the union covers the
+        // tuple is decided position by position and length by length, and the members are met in the order of their names
+        if s.chance(1, 16) {
+            let u = D::Union(vec![D::Str, D::Num]);
+            let k = s.range(1, 2);
+            let a = D::Tuple(vec![u.clone(); k], Some(Box::new(u.clone())));
+            let n = s.range(2, 4);
+            let mut negs = vec![];
+            for _ in 0..n {
+                let len = s.range(1, 3);
+                let prefix: Vec<D> = (0..len)
+                    .map(|_| match s.below(4) {
+                        0 => D::Str,
+                        1 => D::Num,
+                        _ => u.clone(),
+                    })
+                    .collect();
+                negs.push(D::Tuple(prefix, Some(Box::new(u.clone()))));
+            }
+            let named = s.chance(2, 3);
+            let (env2, b) = if named && negs.len() <= 3 {
+                let mut e = Env::default();
+                // names sort Alpha < Beta < Gamma: which member gets which name decides the order they are met in
+                let mut order: Vec<usize> = (0..negs.len()).collect();
+                for i in (1..order.len()).rev() {
+                    let j = s.below(i + 1);
+                    order.swap(i, j);
+                }
+                let mut slots: Vec<Option<D>> = vec![None; negs.len()];
+                for (m, slot) in order.iter().enumerate() {
+                    slots[*slot] = Some(negs[m].clone());
+                }
+                for (i, d) in slots.into_iter().enumerate() {
+                    e.defs.push((crate::den::DEF_NAMES[i].to_string(), d.unwrap()));
+                }
+                let refs: Vec<D> = (0..negs.len()).map(D::Ref).collect();
+                (e, D::Union(refs))
+            } else {
+                (Env::default(), D::Union(negs))
+            };
+            return serde_json::to_value(PairCase { env: env2, a, b, iso: false }).unwrap();
+        }
         let a = roots[0].clone();
         let b = match s.below(10) {
             0 => crate::den::gen_type(s, &cfg, env.defs.len(), 2),
@@ -1390,6 +1433,39 @@ pub fn indexed_expectation(env: &Env, x: &D, y: &D) -> Option<D> {
             (None, None) => None,
         };
     }
+    // unions and intersections of list types picked by a literal index: (L & (M | N))[i] = L[i] & (M[i] | N[i]).  Only
+    // stated for operands the generator builds so that no intersection of two members is empty (every element type
+    // admits strings), otherwise a member that vanishes as a whole would still contribute its element.
+    if let D::NumLit(n) = y {
+        let i: usize = n.parse().ok()?;
+        fn elem_at(r: &Ref, d: &D, i: usize, depth: usize) -> Option<D> {
+            if depth > 8 {
+                return None;
+            }
+            match r.head(d) {
+                D::Array(t) => Some((**t).clone()),
+                D::Tuple(prefix, rest) => prefix.get(i).cloned().or_else(|| rest.as_ref().map(|x| (**x).clone())),
+                D::Union(ms) => Some(D::Union(ms.iter().map(|m| elem_at(r, m, i, depth + 1)).collect::<Option<Vec<_>>>()?)),
+                D::Inter(ms) => Some(D::Inter(ms.iter().map(|m| elem_at(r, m, i, depth + 1)).collect::<Option<Vec<_>>>()?)),
+                _ => None,
+            }
+        }
+        fn all_admit_strings(r: &Ref, d: &D, depth: usize) -> bool {
+            if depth > 8 {
+                return false;
+            }
+            match r.head(d) {
+                D::Array(t) => r.member(t, &JsVal::Str("s".into())) == Tri::Yes,
+                D::Tuple(prefix, rest) => prefix.iter().chain(rest.iter().map(|x| &**x)).all(|t| r.member(t, &JsVal::Str("s".into())) == Tri::Yes),
+                D::Union(ms) | D::Inter(ms) => ms.iter().all(|m| all_admit_strings(r, m, depth + 1)),
+                _ => false,
+            }
+        }
+        if matches!(r.head(x), D::Union(_) | D::Inter(_)) && all_admit_strings(&r, x, 0) {
+            return elem_at(&r, x, i, 0);
+        }
+        return None;
+    }
     let k = match y {
         D::StrLit(k) => k,
         _ => return None,
@@ -1577,6 +1653,30 @@ impl Check for C07 {
             let prefix: Vec<D> = (0..n).map(|_| leaf(s)).collect();
             x = D::Tuple(prefix, Some(Box::new(leaf(s))));
             indexed_tuple = Some(s.below(n + 2));
+        }
+        // indexed access into an intersection of a list type with a union of list types (arrays and tuples whose element
+        // types all admit strings, so that no combination is empty), operands in either order, named or in place
+        if op == "indexed" && indexed_key.is_none() && indexed_tuple.is_none() && s.chance(1, 2) {
+            let el = |s: &mut Src| match s.below(4) {
+                0 => D::Str,
+                1 => D::Union(vec![D::Str, D::Num]),
+                2 => D::Union(vec![D::Str, D::Bool]),
+                _ => D::Union(vec![D::Str, D::Num, D::Bool]),
+            };
+            let list = |s: &mut Src| {
+                if s.chance(1, 2) {
+                    D::Array(Box::new(el(s)))
+                } else {
+                    let n = s.range(1, 3);
+                    let rest = if s.chance(1, 2) { Some(Box::new(el(s))) } else { None };
+                    D::Tuple((0..n).map(|_| el(s)).collect(), rest)
+                }
+            };
+            let l = D::Array(Box::new(el(s)));
+            let (m, n) = (list(s), list(s));
+            let u = if s.chance(1, 2) { D::Union(vec![m, n]) } else { D::Union(vec![n, m]) };
+            x = if s.chance(1, 2) { D::Inter(vec![l, u]) } else { D::Inter(vec![u, l]) };
+            indexed_tuple = Some(s.below(2));
         }
         // keyof over an intersection the frontend cannot merge syntactically (a key declared with different types, a named
         // member), alone or next to another object type in a union
